@@ -43,6 +43,8 @@ def p_sym(name):
 
 
 def p_add(a, b, sign=1):
+    if len(a) + len(b) > TERM_LIMIT:
+        raise AnalysisError("term-limit", "a symbolic sum of %d + %d terms" % (len(a), len(b)))
     r = dict(a)
     for m, c in b.items():
         v = r.get(m, 0) + sign * c
@@ -53,7 +55,21 @@ def p_add(a, b, sign=1):
     return r
 
 
+TERM_LIMIT = 20000
+DEADLINE = [None]           # wall-clock budget of the running analysis (set by the interpreter)
+
+
+def check_deadline():
+    import time
+    if DEADLINE[0] is not None and time.time() > DEADLINE[0]:
+        raise AnalysisError("time-limit", "the analysis did not finish within its time budget (symbolic arithmetic)")
+
+
 def p_mul(a, b):
+    check_deadline()
+    if len(a) * len(b) > TERM_LIMIT:
+        # a symbolic term that keeps growing is not going to decide anything: refuse rather than grind
+        raise AnalysisError("term-limit", "a symbolic product of %d x %d terms" % (len(a), len(b)))
     r = {}
     for m1, c1 in a.items():
         for m2, c2 in b.items():
